@@ -172,7 +172,7 @@ where
                 fin!(constraints::cumulative_with_options(vs(st), du, rq, *cap as i32, cumul_opts(*o)))
             }
         }
-        Con::BoolLe(..) | Con::BoolEq(..) | Con::PClause(..) | Con::LitDef(..) => unreachable!(),
+        Con::BoolLe(..) | Con::BoolEq(..) | Con::PClause(..) | Con::VClause(..) | Con::LitDef(..) => unreachable!(),
     }
 }
 
@@ -182,6 +182,25 @@ pub fn post_con(s: &mut Solver, xs: &[X], c: &(Con, Reif), tag: Option<u32>) -> 
     let lit = |l: &Lit| mk_lit(l, xs);
     match &c.0 {
         Con::LitDef(..) => return Ok(()),
+        Con::VClause(ps) => {
+            let preds: Vec<Predicate> = ps
+                .iter()
+                .map(|(v, k, c)| {
+                    let x = mk_view(v, xs);
+                    let c = *c as i32;
+                    match k {
+                        PK::Ge => predicate!(x >= c),
+                        PK::Le => predicate!(x <= c),
+                        PK::Eq => predicate!(x == c),
+                        PK::Ne => predicate!(x != c),
+                    }
+                })
+                .collect();
+            return match &c.1 {
+                Reif::Plain => s.add_clause(preds),
+                _ => panic!("harness: predicate clauses are posted plainly"),
+            };
+        }
         Con::PClause(ps) => {
             let preds: Vec<Predicate> = ps.iter().map(|p| from_mpred(p, xs)).collect();
             return match &c.1 {
@@ -361,6 +380,17 @@ impl Budget {
     pub fn for_model(m: &Model) -> Budget {
         let d = m.space().min(1e7);
         Budget::new((50.0 * (d + 10.0) * (m.vars.len() as f64 + 1.0)) as u64)
+    }
+    /// Budget for a full iteration. Chronological search without learning and without restarts always
+    /// terminates, but every `next_solution` restarts at the root and walks past the solutions blocked
+    /// so far, which is quadratic in the number of solutions: the limit is only a safety net there.
+    pub fn for_iteration(m: &Model, o: &OptSpec) -> Budget {
+        let b = Budget::for_model(m);
+        if o.no_learning && o.no_restarts {
+            Budget::new(b.left.saturating_mul(400).min(4_000_000_000))
+        } else {
+            b
+        }
     }
     pub fn exhausted(&self) -> bool {
         self.left == 0
